@@ -8,6 +8,7 @@
 //! Oracle: an independent Kleene-iteration reference solver.
 
 mod tier2;
+mod tier3;
 
 use cwe_checker_lib::analysis::fixpoint::{Computation, Context};
 use petgraph::graph::{DiGraph, EdgeIndex, NodeIndex};
